@@ -262,8 +262,12 @@ func runRecord(path string, seed int64, n, maxEvents, deep int, sum *tl.Summary)
 		}
 		rec.End(left, out.err, out.panicked)
 		if out.panicked {
+			// C27: a runtime panic is a violation in itself (the trace is rejected as well: event end{panic})
 			panics++
 			sum.Notes = append(sum.Notes, fmt.Sprintf("panic in %s/%s gas=%d: %v", f.Name, label, j.gas, out.pval))
+			sum.Violate(fmt.Sprintf("EVM execution panicked under rule set %s (program kind %s, gas %d): %v", f.Name, label, j.gas, out.pval),
+				tl.M{"fork": f.Name, "program": label, "code": common.Bytes2Hex(j.p.Code), "input": common.Bytes2Hex(j.p.Input),
+					"gas": j.gas, "via": j.via, "create": j.p.Create, "value": j.p.Value, "panic": fmt.Sprint(out.pval)})
 		}
 		if rec.Truncated() {
 			truncated++
